@@ -44,6 +44,7 @@ type MCase struct {
 	M     MInst   `json:"m"`
 	Steps []MStep `json:"steps"`
 	Panic int     `json:"panic"` // source whose teardown panics (0 = none)
+	Sync  int     `json:"sync"`  // source that ends synchronously inside its subscription (0 = none)
 	Raw   string  `json:"-"`
 }
 
@@ -226,6 +227,11 @@ func replayMulti(idx int, c *MCase, mode string, out *[]Mismatch) {
 		ctls[i] = &Ctl{PanicOnTeardown: c.Panic == i+1}
 		srcs[i] = ctls[i].Observable(lo.Ternary(mode == "multi-apply", "ctl-unsafe", mode), nil)
 	}
+	if c.Sync > 0 {
+		// this source ends synchronously, inside its own subscription (the first step carries the terminal)
+		k, n := c.Sync, c.Steps[0].N
+		ctls[k-1].OnSub = func(cs *ctlSub) { emitMulti(cs, k, 0, n) }
+	}
 	var o ro.Observable[any]
 	var err error
 	if mode == "multi-apply" {
@@ -280,7 +286,9 @@ func replayMulti(idx int, c *MCase, mode string, out *[]Mismatch) {
 			}
 			sent[k]++
 		case "unsub":
-			guard(i, r.sub.Unsubscribe)
+			if r.sub != nil { // nil: the Subscribe call itself panicked (reported by the guard / judged by the teardown counters below)
+				guard(i, r.sub.Unsubscribe)
+			}
 		}
 		r.mu.Lock()
 		delta := append([]got(nil), r.log[r.pos:]...)
@@ -305,6 +313,10 @@ func replayMulti(idx int, c *MCase, mode string, out *[]Mismatch) {
 		}
 		for k := range ctls {
 			s, t := ctls[k].counts()
+			if c.Sync > 0 && k != c.Sync-1 && s == 0 && t == 0 && st.Exp.Torn[k] == 1 {
+				// a source the operator no longer needed after the synchronous end of another one was never subscribed at all: nothing to release
+				continue
+			}
 			if s != st.Exp.Subs[k] {
 				add(i, "sub", fmt.Sprintf("source %d subscribed %d times, expected %d", k+1, s, st.Exp.Subs[k]))
 			}
